@@ -160,7 +160,7 @@ func LoaderOptions(w *world.World, lg *Logger, kc *Keychain, span bool) ([]loade
 	}
 	return append(opts,
 		loader.SetLoggerProvider(lg),
-		loader.SetKeychainProvider(secret.New()),
+		loader.SetKeychainProvider(&ScopeKeychain{w: w, inner: secret.New()}),
 		loader.SetConfigProvider(config.New()),
 		loader.SetAuthorizerProvider(stringy.New(lg)),
 		loader.RegisterSecretProviderType(config.PREFIX, prefix.New(lg)),
@@ -168,6 +168,30 @@ func LoaderOptions(w *world.World, lg *Logger, kc *Keychain, span bool) ([]loade
 		loader.RegisterAuthenticator(config.BCRYPT, bcrypt.New(lg, kc)),
 		loader.RegisterAccounter(config.FILE, acct),
 	), nil
+}
+
+// ScopeKeychain is the deployment's keychain for scope secrets (the loader's
+// KeychainProvider), with a parking seam in front of every query: a keychain service that
+// answers slowly for one scope. Site name: "scope-keychain:" + the configured key.
+type ScopeKeychain struct {
+	w     *world.World
+	inner interface {
+		Add(k config.Keychain) func(context.Context, string) ([]byte, error)
+	}
+}
+
+// Add implements the loader's keychainProvider.
+func (k *ScopeKeychain) Add(kc config.Keychain) func(context.Context, string) ([]byte, error) {
+	f := k.inner.Add(kc)
+	site := "scope-keychain:" + kc.Key
+	return func(ctx context.Context, name string) ([]byte, error) {
+		if k.w.Quiet {
+			k.w.QuietYield(site)
+		} else {
+			k.w.Park(site)
+		}
+		return f(ctx, name)
+	}
 }
 
 // BuildRef assembles the reference server's provider from the first document, exactly
